@@ -206,3 +206,208 @@ Proof.
 Qed.
 
 End Lift.
+
+(* ---------- small facts ---------- *)
+
+Lemma cget_update_same : forall m k r, get (update m k r) k = r.
+Proof.
+  intros m k r. unfold get. induction m as [|[k' r'] t IH]; cbn [update lookup].
+  - now rewrite N.eqb_refl.
+  - destruct (N.eqb k k') eqn:E; cbn [lookup]; [now rewrite N.eqb_refl | rewrite E; exact IH].
+Qed.
+
+Lemma cget_update_other : forall m k x r, x <> k -> get (update m k r) x = get m x.
+Proof.
+  intros m k x r Hx. unfold get. induction m as [|[k' r'] t IH]; cbn [update lookup].
+  - apply N.eqb_neq in Hx. now rewrite Hx.
+  - destruct (N.eqb k k') eqn:E; cbn [lookup].
+    + apply N.eqb_eq in E. subst k'. apply N.eqb_neq in Hx. now rewrite Hx.
+    + destruct (N.eqb x k'); [reflexivity | exact IH].
+Qed.
+
+Lemma flagged_unflag_c : forall s k x, flagged (unflag s k) x = flagged s x && negb (N.eqb k x).
+Proof.
+  intros s k x. unfold flagged, unflag. cbn [st_flag]. induction (st_flag s) as [|y t IH]; [reflexivity|].
+  cbn [filter existsb]. destruct (N.eqb y k) eqn:Eyk; cbn [negb existsb].
+  - rewrite IH. apply N.eqb_eq in Eyk. subst y. rewrite (N.eqb_sym x k).
+    destruct (N.eqb k x); cbn [orb negb]; [now rewrite !andb_false_r | now rewrite !andb_true_r].
+  - rewrite IH. destruct (N.eqb x y) eqn:Exy; cbn [orb]; [|reflexivity].
+    apply N.eqb_eq in Exy. subst y. rewrite (N.eqb_sym k x), Eyk. reflexivity.
+Qed.
+
+Lemma completed_in_app : forall l1 l2 x, completed_in (l1 ++ l2) x = completed_in l1 x || completed_in l2 x.
+Proof. intros. unfold completed_in. apply existsb_app. Qed.
+
+Lemma completed_in_true : forall l x, completed_in l x = true <-> exists v, In (EComplete x v) l.
+Proof.
+  intros l x. unfold completed_in. rewrite existsb_exists. split.
+  - intros [e [Hin He]]. destruct e; cbn [is_complete] in He; try discriminate.
+    apply N.eqb_eq in He. subst. eexists. exact Hin.
+  - intros [v Hin]. exists (EComplete x v). split; [exact Hin|]. cbn [is_complete]. apply N.eqb_refl.
+Qed.
+
+Lemma completed_in_false : forall l x v, completed_in l x = false -> ~ In (EComplete x v) l.
+Proof.
+  intros l x v H Hin. assert (E : completed_in l x = true) by (apply completed_in_true; eauto).
+  rewrite E in H. discriminate.
+Qed.
+
+(* ---------- the invariant of one (possibly aborted) traversal ---------- *)
+
+Section Inv.
+Variable rules : key -> rule.
+Variable order : N -> key -> list dep -> list dep.
+
+(* the database row written by the completion of x with value v in epoch e *)
+Definition row_of_completion (e : N) (x : key) (v : value) (row : result) : Prop :=
+  res_value row = Some v /\ res_sig row = r_sig (rules x) /\ res_builtAt row = e /\
+  exists bk, res_deps row = order e x (requested_deps (rules x) bk) ++ map (fun d => mkDep d false false) (r_disc (rules x)).
+
+Record cinv (st : list key) (s s' : state) (l : list event) : Prop := mkCinv {
+  ci_log : st_log s' = l ++ st_log s;
+  ci_epoch : st_epoch s' = st_epoch s;
+  ci_dbepoch : st_db_epoch s' = st_db_epoch s;
+  (* a flag disappears exactly when the key completes *)
+  ci_flag : forall x, flagged s' x = flagged s x && negb (completed_in l x);
+  (* a database row changes only by a completion, to the result of that completion *)
+  ci_db : forall x, get (st_db s') x = get (st_db s) x \/
+                    exists v, In (EComplete x v) l /\ row_of_completion (st_epoch s) x v (get (st_db s') x);
+  (* reason Forced is only given to flagged keys *)
+  ci_forced : forall x inp, In (ENeed x Forced inp) l -> flagged s x = true;
+  (* keys being brought up to date are not started again *)
+  ci_stack : forall x, In x st -> ~ In (ECreate x) l
+}.
+
+Definition cR (st : list key) (s s' : state) : Prop := exists l, cinv st s s' l.
+
+Lemma cR_refl : forall st s, cR st s s.
+Proof.
+  intros st s. exists []. constructor; cbn [app In completed_in existsb negb]; try reflexivity; try tauto.
+  intros x. now rewrite andb_true_r.
+Qed.
+
+Lemma cR_trans : forall st s1 s2 s3, cR st s1 s2 -> cR st s2 s3 -> cR st s1 s3.
+Proof.
+  intros st s1 s2 s3 [l1 H1] [l2 H2]. exists (l2 ++ l1). constructor.
+  - rewrite (ci_log _ _ _ _ H2), (ci_log _ _ _ _ H1). now rewrite app_assoc.
+  - rewrite (ci_epoch _ _ _ _ H2). apply (ci_epoch _ _ _ _ H1).
+  - rewrite (ci_dbepoch _ _ _ _ H2). apply (ci_dbepoch _ _ _ _ H1).
+  - intros x. rewrite (ci_flag _ _ _ _ H2), (ci_flag _ _ _ _ H1), completed_in_app.
+    destruct (flagged s1 x), (completed_in l1 x), (completed_in l2 x); reflexivity.
+  - intros x. destruct (ci_db _ _ _ _ H2 x) as [E2|[v [Hin Hrow]]].
+    + rewrite E2. destruct (ci_db _ _ _ _ H1 x) as [E1|[v [Hin Hrow]]]; [now left|].
+      right. exists v. split; [apply in_or_app; now right | exact Hrow].
+    + right. exists v. split; [apply in_or_app; now left|]. rewrite <- (ci_epoch _ _ _ _ H1). exact Hrow.
+  - intros x inp Hin. apply in_app_or in Hin. destruct Hin as [Hin|Hin].
+    + pose proof (ci_forced _ _ _ _ H2 x inp Hin) as Hf. rewrite (ci_flag _ _ _ _ H1) in Hf.
+      apply andb_true_iff in Hf. apply Hf.
+    + apply (ci_forced _ _ _ _ H1 x inp Hin).
+  - intros x Hx Hin. apply in_app_or in Hin. destruct Hin as [Hin|Hin].
+    + apply (ci_stack _ _ _ _ H2 x Hx Hin).
+    + apply (ci_stack _ _ _ _ H1 x Hx Hin).
+Qed.
+
+Lemma cR_weaken : forall k st s s', cR (k :: st) s s' -> cR st s s'.
+Proof.
+  intros k st s s' [l H]. exists l. destruct H. constructor; try assumption.
+  intros x Hx. apply ci_stack0. now right.
+Qed.
+
+(* a single event that is not a completion: nothing but the log changes *)
+Lemma cinv_emit : forall st s e,
+  (forall x v, e <> EComplete x v) ->
+  (forall x inp, e = ENeed x Forced inp -> flagged s x = true) ->
+  (forall x, In x st -> e <> ECreate x) ->
+  cinv st s (emit s e) [e].
+Proof.
+  intros st s e Hc Hf Hs. constructor; cbn [emit st_log st_epoch st_db_epoch st_db app]; try reflexivity.
+  - intros x. unfold flagged. cbn [emit st_flag]. unfold completed_in. cbn [existsb].
+    assert (E : is_complete x e = false).
+    { destruct e; cbn [is_complete]; try reflexivity. destruct (N.eqb k x) eqn:Ek; [|reflexivity].
+      exfalso. eapply Hc. reflexivity. }
+    rewrite E. cbn [orb negb]. now rewrite andb_true_r.
+  - intros x. now left.
+  - intros x inp [Hin|[]]. apply (Hf x inp). now symmetry.
+  - intros x Hx [Hin|[]]. apply (Hs x Hx). now symmetry.
+Qed.
+
+Lemma cR_quiet : forall st s e, quiet_ev e -> cR st s (emit s e).
+Proof.
+  intros st s e Hq. exists [e]. apply cinv_emit.
+  - intros x v E. subst e. exact Hq.
+  - intros x inp E. subst e. destruct Hq.
+  - intros x _ E. subst e. exact Hq.
+Qed.
+
+Lemma cR_create : forall st s k, ~ In k st -> cR st s (emit s (ECreate k)).
+Proof.
+  intros st s k Hk. exists [ECreate k]. apply cinv_emit.
+  - intros x v E. discriminate E.
+  - intros x inp E. discriminate E.
+  - intros x Hx E. inversion E. subst. contradiction.
+Qed.
+
+Lemma cR_need : forall st s k rs inp, ~ In k st -> (rs = Forced -> flagged s k = true) -> cR st s (emit s (ENeed k rs inp)).
+Proof.
+  intros st s k rs inp _ Hf. exists [ENeed k rs inp]. apply cinv_emit.
+  - intros x v E. discriminate E.
+  - intros x inp' E. inversion E. subst. apply Hf. reflexivity.
+  - intros x Hx E. discriminate E.
+Qed.
+
+Lemma cR_set_mem : forall st s k r, ~ In k st -> cR st s (set_mem s k r).
+Proof.
+  intros st s k r _. exists []. constructor; cbn [set_mem st_log st_epoch st_db_epoch st_db app In]; try reflexivity; try tauto.
+  intros x. unfold flagged. cbn [set_mem st_flag completed_in existsb negb]. now rewrite andb_true_r.
+Qed.
+
+Lemma cR_complete : forall st s k r bk v, ~ In k st -> cR st s (complete order s k (rules k) r bk v).
+Proof.
+  intros st s k r bk v _. exists [EComplete k v]. unfold complete.
+  constructor; cbn [set_db set_mem unflag emit st_log st_epoch st_db_epoch st_db st_mem app]; try reflexivity.
+  - intros x. change (flagged (unflag s k) x = flagged s x && negb (completed_in [EComplete k v] x)).
+    rewrite flagged_unflag_c. unfold completed_in. cbn [existsb is_complete]. now rewrite orb_false_r.
+  - intros x. destruct (N.eq_dec x k) as [E|E].
+    + subst x. right. exists v. split; [now left|]. rewrite cget_update_same.
+      unfold row_of_completion. cbn [res_value res_sig res_builtAt res_deps]. repeat split. exists bk. reflexivity.
+    + left. apply cget_update_other. exact E.
+  - intros x inp [Hin|[]]. discriminate Hin.
+  - intros x Hx [Hin|[]]. discriminate Hin.
+Qed.
+
+End Inv.
+
+(* ---------- the invariant holds of ensure and ensure_c ---------- *)
+
+Section InvLift.
+Variable rules : key -> rule.
+Variable env : key -> N.
+Variable F : key -> N -> list value -> list N -> N -> N.
+Variable order : N -> key -> list dep -> list dep.
+
+Definition inv_o (st : list key) (s : state) (o : outcome) : Prop := outcome_R (cR rules order) st s o.
+
+Theorem ensure_body_inv : forall ens, (forall st s k, inv_o st s (ens st s k)) ->
+  forall st s k, inv_o st s (ensure_body rules env F order ens st s k).
+Proof.
+  intros ens Hens. unfold inv_o in *.
+  apply (ensure_body_R rules env F order (cR rules order) (cR_refl rules order) (cR_trans rules order) (cR_weaken rules order)
+           (cR_quiet rules order) (cR_create rules order) (cR_need rules order) (cR_set_mem rules order) (cR_complete rules order)).
+  exact Hens.
+Qed.
+
+Theorem ensure_inv : forall fuel st s k, inv_o st s (ensure rules env F order fuel st s k).
+Proof.
+  unfold inv_o.
+  apply (ensure_R rules env F order (cR rules order) (cR_refl rules order) (cR_trans rules order) (cR_weaken rules order)
+           (cR_quiet rules order) (cR_create rules order) (cR_need rules order) (cR_set_mem rules order) (cR_complete rules order)).
+Qed.
+
+Theorem ensure_c_inv : forall n base fuel st s k, inv_o st s (ensure_c rules env F order n base fuel st s k).
+Proof.
+  unfold inv_o.
+  apply (ensure_c_R rules env F order (cR rules order) (cR_refl rules order) (cR_trans rules order) (cR_weaken rules order)
+           (cR_quiet rules order) (cR_create rules order) (cR_need rules order) (cR_set_mem rules order) (cR_complete rules order)).
+Qed.
+
+End InvLift.
